@@ -21,6 +21,7 @@ func init() {
 		id := id
 		thorough[id] = func(w *World, r *Report) {
 			runSensitivity(id, r)
+			runSuites(id, r)
 			switch id {
 			case "C15":
 				bceCrossCheck(w, r, []string{"./gossip", "./notaryserver", "./webhooksserver", "./transformers"}, "D1-slice-to-array")
@@ -52,6 +53,34 @@ func runSensitivity(id string, r *Report) {
 	r.Extra["sensitivity_suite"] = res
 	if s, ok := res["summary"].(map[string]any); ok {
 		fmt.Printf("  sensitivity suite (non-gating): %v\n", s)
+	}
+}
+
+// runSuites: the thorough tier also replays, for this property, the independent seeded breaking changes (each must be
+// reported) and the behaviour-preserving refactorings (each must stay silent). Both are recorded, neither gates.
+func runSuites(id string, r *Report) {
+	for _, suite := range []struct {
+		key  string
+		args []string
+	}{
+		{"seeded_changes_of_this_property", []string{filepath.Join(verifDir(), "seeded", "own.py"), id, "-j", "6"}},
+		{"neutral_refactorings", []string{filepath.Join(verifDir(), "mutants", "neutral.py"), "-p", id, "-j", "8"}},
+	} {
+		out := filepath.Join(os.TempDir(), fmt.Sprintf("vcheck_%s_%s_%d.json", suite.key, id, os.Getpid()))
+		cmd := exec.Command("python3", append(suite.args, "--out", out)...)
+		cmd.Env = toolEnv()
+		b, err := cmd.CombinedOutput()
+		res := map[string]any{}
+		if raw, e2 := os.ReadFile(out); e2 == nil {
+			json.Unmarshal(raw, &res)
+		} else {
+			res["error"] = fmt.Sprintf("%v: %s", err, tail(string(b), 400))
+		}
+		os.Remove(out)
+		r.Extra[suite.key] = res
+		if s, ok := res["summary"]; ok {
+			fmt.Printf("  %s (non-gating): %v\n", suite.key, s)
+		}
 	}
 }
 
